@@ -260,10 +260,17 @@ func (f *chainFam) deliver(m sdk.Msg) M {
 		// this node also serves simulation requests: before every delivered transaction it simulates another plausible one
 		// (drawn from a generator of its own, so that the delivered history is the same on both nodes). Simulation runs on a
 		// throw-away branch of the state and must leave no trace.
-		save, nreg := f.rng, f.nreg
+		save, nreg, omit := f.rng, f.nreg, omitZeroIndex
 		f.rng = f.simRng
 		m2 := f.flow()
-		f.rng, f.nreg = save, nreg
+		if f.rng.Intn(3) == 0 { // or a proof of some chunk of some file by some provider
+			t := f.files[f.rng.Intn(len(f.files))]
+			if item, hl, ok := t.proof(int64(f.rng.Intn(len(t.chunks)))); ok {
+				m2 = &stypes.MsgPostProof{Creator: f.c.Acct([]string{"p1", "p2", "p3", "p4"}[f.rng.Intn(4)]).S(), Item: item, HashList: hl,
+					Merkle: t.root, Owner: f.c.Acct("a").S(), Start: f.c.H, ToProve: int64(f.rng.Intn(len(t.chunks)))}
+			}
+		}
+		f.rng, f.nreg, omitZeroIndex = save, nreg, omit
 		if s2 := f.signerOf2(m2); s2 != nil {
 			f.c.SimulateOnly = true
 			f.c.Deliver([]sdk.Msg{m2}, s2)
@@ -310,11 +317,11 @@ func (f *chainFam) flow() sdk.Msg {
 	case 12:
 		return &otypes.MsgUpdateFeed{Creator: f.c.Acct("a").S(), Name: "jklprice", Data: fmt.Sprintf(`{"price":"%s","24h_change":"0"}`, pick("0.25", "0.5", "0.125", "1.0"))}
 	case 0, 1:
-		return &rtypes.MsgBid{Creator: who("a", "b", "c", "p1"), Name: pick(names...), Bid: coin()}
+		return &rtypes.MsgBid{Creator: f.spelled(who("a", "b", "c", "p1")), Name: pick(names...), Bid: coin()}
 	case 2:
-		return &rtypes.MsgCancelBid{Creator: who("a", "b", "c", "p1"), Name: pick(names...)}
+		return &rtypes.MsgCancelBid{Creator: f.spelled(who("a", "b", "c", "p1")), Name: pick(names...)}
 	case 3:
-		return &rtypes.MsgAcceptBid{Creator: who("a", "b", "c"), Name: pick(names...), From: who("a", "b", "c", "p1")}
+		return &rtypes.MsgAcceptBid{Creator: f.spelled(who("a", "b", "c")), Name: pick(names...), From: f.spelled(who("a", "b", "c", "p1"))}
 	case 4:
 		if r.Intn(2) == 0 {
 			return &rtypes.MsgList{Creator: who("a", "b", "c"), Name: pick(names...), Price: coin()}
@@ -392,6 +399,10 @@ func (f *chainFam) Apply(st M) M {
 		msg := &stypes.MsgPostFile{Creator: a.S(), Merkle: t.root, FileSize: sizes[f.rng.Intn(len(sizes))], MaxProofs: []int64{1, 1, 1, 2, 3, 0, -1, 1 << 45, 1 << 55}[f.rng.Intn(9)], Note: "{}"}
 		if msg.MaxProofs > 1<<40 { // huge replication of a tiny file (the product still fits the whale plans)
 			msg.FileSize = []int64{1, 3}[f.rng.Intn(2)]
+		}
+		if f.rng.Intn(6) == 0 { // a merkle root of unusual length (nothing constrains it): nobody can prove such a file, it is dropped later
+			msg.Merkle = [][]byte{{}, {7}, {1, 2, 3}, {1, 2, 3, 4, 5, 6, 7}, t.root[:31], append(append([]byte{}, t.root...), 9, 9)}[f.rng.Intn(6)]
+			msg.FileSize, msg.MaxProofs = 3, 1
 		}
 		switch f.rng.Intn(6) {
 		case 0:
